@@ -930,6 +930,16 @@ def a_r9_default_copy_protocol(schema: Schema, rep: Report):
                         node = getattr(tgt, "node", None)
                         if isinstance(node, ast.FunctionDef) and any(isinstance(x, ast.Call) and isinstance(x.func, ast.Name) and x.func.id in params_of(node)[:1] for x in ast.walk(node)):
                             rebuilds = f"{c.id}() -> {params_of(node)[0]}(...)"
+            # a __getstate__ that leaves entries of the instance dict out (a filter on the values) is only half of a pair:
+            # every slot __init__ fills (spec_no_listaggregates: elements AND sub-aggregates) has to be back after
+            # __setstate__, or reading the slot on the copy raises KeyError where the original answers None
+            if hook == "__getstate__" and rebuilds is None:
+                filt = [x for x in ast.walk(fn) if isinstance(x, (ast.DictComp,)) and any(g.ifs for g in x.generators)] or [x for x in ast.walk(fn) if isinstance(x, ast.Call) and isinstance(x.func, ast.Attribute) and x.func.attr in ("pop", "popitem")] or [x for x in ast.walk(fn) if isinstance(x, ast.Delete)]
+                if filt:
+                    ss = ci.own_func("__setstate__")
+                    restores_all = ss is not None and any(isinstance(x, ast.Attribute) and x.attr in ("spec_no_listaggregates",) for x in ast.walk(ss))
+                    rep.check("A-R9", f"{ci.name}.__getstate__:dropped-slots-restored", restores_all, f"{ci.name}.__getstate__ leaves entries of the instance dict out ({text(filt[0])[:50]}) and " + ("no __setstate__ puts them back" if ss is None else "__setstate__ does not restore every slot __init__ fills (spec_no_listaggregates - sub-aggregates included)") + ": on a copy / unpickled instance an absent optional sub-aggregate (a statement without AVAILBAL) raises KeyError where the original returns None, and repr() / to_etree() of the copy fail" if not restores_all else "", f"{ci.mod.relpath}:{fn.lineno}")
+                    continue
             if rebuilds is not None:
                 rep.check("A-R9", f"{ci.name}.{hook}:keeps-stored-values", False, f"{ci.name}.{hook} rebuilds the copy through the class constructor ({rebuilds}): every stored value is converted a second time (text that still looks like an entity changes) and attributes that live only in the instance dict are dropped - the copy is not equal to the original", f"{ci.mod.relpath}:{fn.lineno}")
             else:
